@@ -58,6 +58,10 @@ CHECKS = {
    "bounded-exhaustive rewrite neighbourhoods (all single and pairwise information-preserving rewrites at every position) with a differential oracle",
    "21 seed messages (hellos, every reply type, rpc-errors with all leaves, get-config data for both agent readers; accepted and rejected ones) x every applicable rewrite (namespace prefix vs default, inter-element whitespace, whitespace around token-valued text, comments, attribute order, quote style, XML declaration, empty-element form) at every position, singly and in pairs; each rewritten message goes through the real session (and the agent's real fetch path) and must give the same acceptance and the same Debug value as its seed.",
    "The value of <get> is the raw <data> content by design, so only acceptance is compared there.", "DESIGN.md §2 E3 C13"),
+ "C14": ("E3", "exploration",
+   "exhaustive one-edit mutation neighbourhoods (every offset / element / attribute / numeric field) of seed messages under a per-case watchdog",
+   "Every truncation, every substitution of 8 hostile bytes at every offset, every element/attribute deletion, duplication and sibling swap, every numeric field replaced by 10 hostile values, and prefix/suffix splices of 21 seed messages are delivered as the hello, as the reply to one of two outstanding requests, or as a get-config reply to the agent's readers: no panic (catch_unwind), every future resolves within a poll budget and a 10 s watchdog, and the other outstanding request still receives its own reply.",
+   "One- and two-edit neighbourhoods of a finite seed set, not all byte strings; an abort (allocation failure, stack exhaustion) would be a machinery failure.", "DESIGN.md §2 E3 C14"),
 }
 
 NOT_YET = "check not built yet (construction in progress; see DESIGN.md)"
